@@ -92,7 +92,7 @@ func genHistories(r *lib.Run) []history {
 			nops := 4 + rng.Intn(maxOps-3)
 			h := history{Index: hi, Map: kind, DMode: dmode, JMode: jmode, Reload: reload}
 			live := map[int]int{} // key -> size of live blob (-1 none)
-			withEmpty := hi%4 == 2
+			withEmpty := hi%3 == 2
 			emptyDone := false
 			for len(h.Ops) < nops {
 				pos := len(h.Ops)
@@ -143,7 +143,7 @@ func genHistories(r *lib.Run) []history {
 		}
 	}
 	if r.Quick() {
-		add(4, 8, "memory", "tail2", "near", "half", true)
+		add(6, 10, "memory", "tail2", "near", "half", true)
 	} else {
 		add(10, 12, "memory", "tail3", "all", "all", true)
 		add(2, 8, "memory", "all", "all", "half", false)
@@ -722,7 +722,7 @@ func main() {
 		_ = pprof.StartCPUProfile(f)
 		defer pprof.StopCPUProfile()
 	}
-	r.SetRule("a case is a crash image (history, d, j): the .dat of a generated history (writes/overwrites/deletes over 4 keys, records of 40 B to 13 KiB, some zero-length payloads, tails ending in a tombstone / a tombstone followed by a write / a multi-page record) cut to d bytes and its .idx cut to j entries, j <= m = number of records completely inside d. d ranges over every record boundary and bytewise over the last 2 records (quick: 4 histories of 4-8 ops), the last 3 records (thorough: 10 histories of 4-12 ops) or all records (thorough: 2 histories of 4-8 ops; 2 more leveldb-map histories like the quick ones); records longer than 600 B are cut at every byte of their first 28 and last 40 bytes, 2 bytes around every 4 KiB page border and 24 seeded positions. j ranges over all 0..m (thorough memory-map histories; every boundary d in all tiers) or over {m, m-1, m-2, 0} for torn d (quick, leveldb histories). Each image is loaded by the real code, every key read and judged against the model states reachable between op j and the last complete record, a new key and an overwrite are written and read, the volume is reloaded and read again (in 'half' mode the second reload is done for boundary images and torn images with d+j even). distinct = distinct (history, d, j); non-trivial = every image except the clean one (d = full file, j = all entries)")
+	r.SetRule("a case is a crash image (history, d, j): the .dat of a generated history (writes/overwrites/deletes over 4 keys, records of 40 B to 13 KiB, some zero-length payloads, tails ending in a tombstone / a tombstone followed by a write / a multi-page record) cut to d bytes and its .idx cut to j entries, j <= m = number of records completely inside d. d ranges over every record boundary and bytewise over the last 2 records (quick: 6 histories of 4-10 ops), the last 3 records (thorough: 10 histories of 4-12 ops) or all records (thorough: 2 histories of 4-8 ops; 2 more leveldb-map histories like the quick ones); records longer than 600 B are cut at every byte of their first 28 and last 40 bytes, 2 bytes around every 4 KiB page border and 24 seeded positions. j ranges over all 0..m (thorough memory-map histories; every boundary d in all tiers) or over {m, m-1, m-2, 0} for torn d (quick, leveldb histories). Each image is loaded by the real code, every key read and judged against the model states reachable between op j and the last complete record, a new key and an overwrite are written and read, the volume is reloaded and read again (in 'half' mode the second reload is done for boundary images and torn images with d+j even). distinct = distinct (history, d, j); non-trivial = every image except the clean one (d = full file, j = all entries)")
 	r.Assume("crash images are prefix truncations only (the quantifier's model): no sector reordering inside a record; .vif and super block intact; an .ldb directory is absent in the image (rebuilt from the .idx)")
 	r.Assume("images are loaded with Store.MountVolume on a long-lived Store (same NewVolume/load path as a fresh Store, without leaking a DiskLocation goroutine per image)")
 	r.Assume("a read answering not-found for a deleted key (or deleted for an absent one) is accepted: both mean 'no data'")
